@@ -570,7 +570,8 @@ def rh3_programs():
         add(rh3("far3", "Q>=c", b, d, "fixed"))
     for b in ("N", "T+N", "N+T", "N-rev", "T-owner"):
         add(rh3("far2", "Q>=c", b, 25, "field"))
-        add(rh3("far2", "Q>=c", b, 15, "field", two_rh=True))
+        if b != "T-owner":  # T within 15 of an N that must share A's heading: infeasible
+            add(rh3("far2", "Q>=c", b, 15, "field", two_rh=True))
     return list(out.values())
 
 
